@@ -1,6 +1,6 @@
 SPECIFICATION Spec
 CONSTANTS
   MaxLen = 4
-  Fixed <- DevsNone
+  Fixed <- AllDevs
 INVARIANT TypeOK
 PROPERTY Terminates
